@@ -191,7 +191,7 @@ def check_create(rep, db, f, inst, vals):
                 rep.violation("R-C14-writers", site(f), "CREATED is stored before backend creation completed", f["loc"], inst)
                 return
             vals["C"] = argvals(stores[0][1])[0][1]
-            locks = [i for i, e in enumerate(evs) if e.kind == "CALL" and q.short(e.a) == "unique_lock" and any(is_global(a, "::sandbox_list_lock") for a in e.b)]
+            locks = [i for i, e in enumerate(evs) if e.kind == "CALL" and q.short(e.a) in q.EXCLUSIVE_GUARDS and any(is_global(a, "::sandbox_list_lock") for a in e.b)]
             unl = [i for i, e in enumerate(evs) if e.kind == "UNLOCK"]
             if len(push) != 1 or evs[push[0]].b != [("this",)] or push[0] < be[0] or not locks or not (locks[0] < push[0]) or not any(u > push[0] for u in unl) or any(locks[0] < u < push[0] for u in unl):
                 rep.violation("R-C14-registry", site(f), "the sandbox is not appended exactly once, after backend creation, inside the unique list guard", f["loc"], inst)
@@ -242,7 +242,7 @@ def check_destroy(rep, db, f, inst, vals):
             rep.violation("R-C14-writers", site(f), "NOT_CREATED is not stored exactly once", f["loc"], inst)
             return
         vals["A2"] = argvals(stores[0][1])[0][1]
-        locks = [i for i, e in enumerate(evs) if e.kind == "CALL" and q.short(e.a) == "unique_lock" and any(is_global(a, "::sandbox_list_lock") for a in e.b)]
+        locks = [i for i, e in enumerate(evs) if e.kind == "CALL" and q.short(e.a) in q.EXCLUSIVE_GUARDS and any(is_global(a, "::sandbox_list_lock") for a in e.b)]
         unl = [i for i, e in enumerate(evs) if e.kind == "UNLOCK"]
         if len(be) != 1 or len(er) != 1 or not fi:
             rep.violation("R-C14-registry", site(f), "expected one search, one erase and one backend destroy", f["loc"], inst)
